@@ -151,13 +151,15 @@ def one_case(rep, scn, k, kp, heights, tm):
             cref, _ = T.ev(tm[("cost", 0)], e)
             if cost_code[i] != cref:
                 bad.append(("initial_cost_is_not_density_minus_1", cost_code[i], cref))
-        imin, imax = pdf.index(mn), pdf.index(mx)
-        # endpoints (up to rounding: 999 * x / x + 1 need not be exactly 1000), order preserved
-        if any(pdf[i] == mn and abs(dens_code[i] - 1.0) > 1e-9 for i in range(n)) and sg.min_density == mn:
-            bad.append(("minimum_pdf_not_mapped_to_1", dens_code[imin], 1.0))
-        if any(pdf[i] == mx and abs(dens_code[i] - c.MAX_DENSITY) > 1e-9 * c.MAX_DENSITY for i in range(n)) and sg.max_density == mx:
-            bad.append(("maximum_pdf_not_mapped_to_max_density", dens_code[imax], float(c.MAX_DENSITY)))
-        if any(d < 1.0 - 1e-9 or d > c.MAX_DENSITY + 1e-6 for d in dens_code):
+        # endpoints, up to rounding: 999 * x / x + 1 need not be exactly 1000, and when the pdf values are nearly equal the
+        # affine map amplifies last-bit differences of the pdf by |pdf| / (max - min)  (conditioning-aware allowance;
+        # the first version compared my reference arg-max with the code's and raised a false alarm under VERIF_SEED=3)
+        tol_end = 1e-9 * c.MAX_DENSITY + (c.MAX_DENSITY - 1) * 1e-14 * max(abs(mx), abs(mn)) / (mx - mn)
+        if abs(min(dens_code) - 1.0) > tol_end:
+            bad.append(("minimum_pdf_not_mapped_to_1", min(dens_code), 1.0))
+        if abs(max(dens_code) - c.MAX_DENSITY) > tol_end:
+            bad.append(("maximum_pdf_not_mapped_to_max_density", max(dens_code), float(c.MAX_DENSITY)))
+        if any(d < 1.0 - tol_end or d > c.MAX_DENSITY + tol_end for d in dens_code):
             bad.append(("density_outside_1_to_max_density", max(dens_code), float(c.MAX_DENSITY)))
         for i in range(n):
             for j in range(n):
